@@ -15,6 +15,12 @@ state machine (sub-actions in the order of prepare_run / RunInfo.create, abstrac
 3. Fixed examples taken from the repository's pytest.raises tests and random larger mutants (mapped pipelines of gen_map,
    DAGs of C02) are judged by TLC itself: the recorded outcome must be the end state of the Prepare machine on that
    request (trace validation, MC_Validity Spec).
+4. Three further classes go through 1-3: an unknown name at any position of a per-output storage DICTIONARY (tuple keys,
+   keys that name no array output); ill-formedness introduced AFTER construction through pipeline[name].update_renames /
+   update_defaults on a valid pipeline, followed by map or by a call (the harness checks that the pipeline after the update
+   is the description TLC judged); and the call side pipeline(out, **kw) with a dropped or an added keyword (missing
+   argument / surplus keyword must be reported before any user function runs).  TLC exhibits the implementation-shaped
+   orderings (storage "late"/"any", keywords "late") as counterexamples of RejectIsPure / OnlyReject.
 """
 from __future__ import annotations
 
@@ -37,6 +43,7 @@ from .. import build, gen_map, pmap
 from ..build import desc_to_tla
 from ..ctx import Ctx
 from ..tlc import MachineryError, run_tlc
+from ..terms import from_json
 from ..tracekit import parse_prints, validate_traces
 
 PROPERTY = "C12"
@@ -47,10 +54,11 @@ INVS = "InvRejectIsPure InvNoCodeBeforeAccept InvOnlyReject InvValidAccepted Inv
 MCFG = """SPECIFICATION MSpec
 CONSTANTS MaxSize = {maxsize} RichM = {richm} ShardM = {shardm} NShardsM = {nshardsm}
           N = {n} RichP = {richp} ShardP = {shardp} NShardsP = {nshardsp} StorageCheck = "{storage_check}"
+          KwargCheck = "{kwarg_check}"
 INVARIANT {invs}
 """
 TRACE_CONSTANTS = ('MaxSize = 1 RichM = FALSE ShardM = 1 NShardsM = 1 N = 2 RichP = FALSE ShardP = 1 NShardsP = 1 '
-                   'StorageCheck = "early"')      # empty universes; the required position of the storage check
+                   'StorageCheck = "early" KwargCheck = "early"')   # empty universes; the REQUIRED positions of the checks
 NPROC = min(8, os.cpu_count() or 4)
 
 
@@ -70,24 +78,61 @@ def snapshot(folder: str | None) -> dict[str, str]:
     return snap
 
 
-def run_request(tdesc: dict, inputs: list, cfg: dict, run_folder: str | None, kinds: dict | None = None) -> dict:
-    """Construct the pipeline of `tdesc` and map it with `cfg`; returns the observation record."""
+CFG0 = {"storage": "file_array", "sdict": [], "parallel": False, "executor": False, "cleanup": True, "folder": True}
+NOHOW = {"kind": "", "f": "", "old": "", "new": ""}
+
+
+def storage_arg(cfg: dict):
+    """cfg.storage / cfg.sdict -> the `storage=` argument (a dict keeps the insertion order of sdict)."""
+    if not cfg.get("sdict"):
+        return cfg["storage"]
+    return {("" if not e["key"] else e["key"][0] if len(e["key"]) == 1 else tuple(e["key"])): e["name"] for e in cfg["sdict"]}
+
+
+def signature_of(pl) -> list:
+    return sorted((tuple(f.output_name) if isinstance(f.output_name, tuple) else (f.output_name,), tuple(sorted(f.parameters)))
+                  for f in pl.functions)
+
+
+def run_request(req: dict, run_folder: str | None, kinds: dict | None = None, how: dict | None = None) -> dict:
+    """Realise one request on the real code.  Without `how`: construct the pipeline of req.desc.  With `how`: construct
+    the VALID pipeline req.prev.desc and introduce the fault through the public update methods of a member function
+    (the resulting pipeline must be the one req.desc describes).  Then map (req.cfg) or call (req.out, keywords =
+    req.inputs).  Returns the observation record."""
+    tdesc, inputs, cfg = req["desc"], req["inputs"], req["cfg"]
     before = snapshot(run_folder)
     start = len(build.LOG)
     stage = "construct"
     exc: BaseException | None = None
     executor = None
+    mismatch = False
     try:
         with contextlib.redirect_stdout(io.StringIO()), warnings.catch_warnings():
             warnings.simplefilter("ignore")
-            pdesc = pmap.tla_desc_to_py(tdesc)
-            pl = build.make_pipeline(pdesc)
-            stage = "map"
+            if how and how["kind"]:
+                base = req["prev"]["desc"]
+                pl = build.make_pipeline(pmap.tla_desc_to_py(base))
+                stage = "mutate"
+                fout = next(f["outputs"][0] for f in base["funcs"] if f["name"] == how["f"])
+                if how["kind"] == "rename":
+                    pl[fout].update_renames({how["old"]: how["new"]})
+                elif how["kind"] == "defaults":
+                    pl[fout].update_defaults({how["old"]: from_json({"f": "@changed", "a": []})})
+                else:
+                    raise ValueError(how["kind"])
+                want = sorted((tuple(f["outputs"]), tuple(sorted(f["params"]))) for f in tdesc["funcs"])
+                mismatch = signature_of(pl) != want
+            else:
+                pl = build.make_pipeline(pmap.tla_desc_to_py(tdesc))
+            stage = req.get("entry", "map")
             inp = pmap.inputs_to_py(inputs, kinds)
-            if cfg["executor"]:
-                executor = ThreadPoolExecutor(1)
-            pl.map(inp, run_folder=run_folder, storage=cfg["storage"], parallel=cfg["parallel"], cleanup=cfg["cleanup"],
-                   executor=executor)
+            if stage == "call":
+                pl(req["out"], **inp)
+            else:
+                if cfg["executor"]:
+                    executor = ThreadPoolExecutor(1)
+                pl.map(inp, run_folder=run_folder, storage=storage_arg(cfg), parallel=cfg["parallel"], cleanup=cfg["cleanup"],
+                       executor=executor)
     except Exception as ex:  # noqa: BLE001
         exc = ex
     finally:
@@ -98,7 +143,12 @@ def run_request(tdesc: dict, inputs: list, cfg: dict, run_folder: str | None, ki
     changed = sorted(k for k in set(before) | set(after) if before.get(k) != after.get(k))
     return {"outcome": "returned" if exc is None else "rejected", "cls": type(exc).__name__ if exc else "",
             "msg": str(exc)[:240] if exc else "", "stage": stage if exc else "", "calls": calls,
-            "folder_changed": bool(changed), "changed": changed[:6]}
+            "folder_changed": bool(changed), "changed": changed[:6], "model_mismatch": mismatch}
+
+
+def base_request(base: dict, entry: str = "map", out: str = "") -> dict:
+    return {"desc": base["desc"], "inputs": base["inputs"], "cfg": dict(CFG0, folder=entry == "map"), "prev": base,
+            "entry": entry, "out": out}
 
 
 def run_base_group(job: dict) -> dict:
@@ -111,17 +161,20 @@ def run_base_group(job: dict) -> dict:
     try:
         build.LOG.clear()
         basedir = os.path.join(tmp, "base")
-        cfg0 = {"storage": "file_array", "parallel": False, "executor": False, "cleanup": True, "folder": True}
-        out["base"] = run_request(base["desc"], base["inputs"], cfg0, basedir, job.get("kinds"))
+        first = job["mutants"][0]
+        if first["op"].startswith("call_"):  # a call-side group: the valid base call (no folder involved)
+            out["base"] = run_request(base_request(base, "call", first["req"]["out"]), None, job.get("kinds"))
+        else:
+            out["base"] = run_request(base_request(base), basedir, job.get("kinds"))
         for k, m in enumerate(job["mutants"]):
             build.LOG.clear()
             req = m["req"]
             folder = None
-            if req["cfg"]["folder"]:
+            if req["entry"] == "map" and req["cfg"]["folder"]:
                 folder = os.path.join(tmp, f"m{k}")
                 if os.path.isdir(basedir):
                     shutil.copytree(basedir, folder)
-            out["obs"].append(run_request(req["desc"], req["inputs"], req["cfg"], folder, m.get("kinds")))
+            out["obs"].append(run_request(req, folder, m.get("kinds"), m.get("how")))
             if folder:
                 shutil.rmtree(folder, ignore_errors=True)
         return out
@@ -150,20 +203,42 @@ def discrepancies(exp: dict, obs: dict) -> list[str]:
     return bad
 
 
-def features(req: dict) -> dict:
+KNOWN = ("dict", "file_array", "shared_memory_dict")
+
+
+def features(req: dict, how: dict | None = None) -> dict:
+    """Labels for violation signatures (they classify, they never judge)."""
     fs = req["desc"]["funcs"]
-    return {"mapped": any(f["has_ms"] and f["ms"]["ins"] for f in fs), "internal_shape": any(f["internal"] for f in fs),
-            "cleanup": req["cfg"]["cleanup"],
-            "folder": req["cfg"]["folder"], "storage_known": req["cfg"]["storage"] in ("dict", "file_array",
-                                                                                        "shared_memory_dict")}
+    cfg = req["cfg"]
+    sd = cfg.get("sdict") or []
+    feat = {"entry": req.get("entry", "map"), "post_construction": bool(how and how["kind"]),
+            "mapped": any(f["has_ms"] and f["ms"]["ins"] for f in fs), "internal_shape": any(f["internal"] for f in fs),
+            "cleanup": cfg["cleanup"], "folder": cfg["folder"], "storage_dict": bool(sd),
+            "storage_known": all(e["name"] in KNOWN for e in sd) if sd else cfg["storage"] in KNOWN}
+    if sd:
+        unk = next((k for k, e in enumerate(sd) if e["name"] not in KNOWN), None)
+        if unk is not None:
+            arrays = [f["outputs"] for f in fs if f["has_ms"] and f["ms"]["ins"]]
+            feat["dict_unknown_first"] = unk == 0
+            feat["dict_unknown_key"] = ("default" if not sd[unk]["key"] else "array_output" if sd[unk]["key"] in arrays
+                                        else "tuple_array_output" if False else "other")
+            if sd[unk]["key"] in arrays and len(sd[unk]["key"]) > 1:
+                feat["dict_unknown_key"] = "tuple_array_output"
+            feat["dict_default_serializes"] = any(not e["key"] and e["name"] in ("file_array", "shared_memory_dict") for e in sd)
+    return feat
 
 
 def report(ctx: Ctx, kind: str, exp: dict, obs: dict, bad: list[str]) -> None:
     req = exp["req"]
     sig = {"check": kind.split(":")[0], "source": kind.split(":", 1)[1] if ":" in kind else "universe", "op": exp.get("op", "?"), "violated": exp.get("violated", "?"), "fault": "+".join(bad),
-           "outcome": obs["outcome"], "cls": obs["cls"], **features(req)}
-    ctx.violation(sig, f"{kind} op={exp.get('op')} (specification: violates {exp.get('violated')}; cleanup="
-                       f"{req['cfg']['cleanup']} storage={req['cfg']['storage']} folder={req['cfg']['folder']}): real code "
+           "outcome": obs["outcome"], "cls": obs["cls"], **features(req, exp.get("how"))}
+    what = (f"call {req['out']!r} with keywords {[n for n, _ in req['inputs']]}" if req.get("entry") == "call"
+            else f"map cleanup={req['cfg']['cleanup']} storage={storage_arg(req['cfg'])} folder={req['cfg']['folder']}")
+    if exp.get("how") and exp["how"]["kind"]:
+        h = exp["how"]
+        what = (f"after pipeline[{h['f']}].update_renames({{{h['old']!r}: {h['new']!r}}}) " if h["kind"] == "rename"
+                else f"after pipeline[{h['f']}].update_defaults({{{h['old']!r}: ...}}) ") + what
+    ctx.violation(sig, f"{kind} op={exp.get('op')} (specification: violates {exp.get('violated')}; {what}): real code "
                        f"{obs['outcome']} {obs['cls']} {obs['msg'][:120]!r} calls={obs['calls']} folder_changed="
                        f"{obs['folder_changed']} {obs['changed']} -> {bad}; functions="
                        f"{[(f['name'], f['params'], f['outputs'], pmap.ms_string(f['ms']) if f['has_ms'] else None) for f in req['desc']['funcs']]}",
@@ -172,9 +247,10 @@ def report(ctx: Ctx, kind: str, exp: dict, obs: dict, bad: list[str]) -> None:
 
 # ---- TLC ------------------------------------------------------------------------------------------------------------
 def mcfg(shardm: int, nshardsm: int, shardp: int, nshardsp: int, *, n: int = 2, maxsize: int = 2, rich: bool = False,
-         storage_check: str = "early", invs: str | None = None) -> str:
+         storage_check: str = "early", kwarg_check: str = "early", invs: str | None = None) -> str:
     return MCFG.format(maxsize=maxsize, richm="TRUE" if rich else "FALSE", shardm=shardm, nshardsm=nshardsm, n=n,
                        richp="TRUE" if rich else "FALSE", shardp=shardp, nshardsp=nshardsp, storage_check=storage_check,
+                       kwarg_check=kwarg_check,
                        invs=invs if invs is not None else f"{LAWS} {INVS} Emit")
 
 
@@ -205,26 +281,46 @@ _RE_DISK = re.compile(r"^/\\ disk = (\[.*\])", re.M)
 
 
 def ordering_counterexamples(ctx: Ctx, shard: tuple[int, int, int, int]) -> None:
-    """With the storage check where the implementation has it, TLC must exhibit the impure rejection (F11) and the
-    unknown storage name that is never looked at (pipelines without MapSpec)."""
-    found = {}
-    for inv in ("InvRejectIsPure", "InvOnlyReject"):
-        r = run_tlc("MC_Validity", mcfg(*shard, storage_check="late", invs=inv) + "CONSTRAINT StorageMutantsOnly\n",
-                    ctx.workdir("late_" + inv), workers=1, timeout=1800)
-        ctx.add_tlc(r, f"MC_Validity MSpec late ordering, {inv} (violation expected)")
-        if inv not in r.violated:
-            raise MachineryError(f"the implementation-shaped ordering does not violate {inv}: the Prepare model does not "
-                                 "exhibit the known ordering defect")
-        tail = r.stdout[r.stdout.find("Error: Invariant"):]
-        found[inv] = {"steps": _RE_PC.findall(tail), "final_disk": (_RE_DISK.findall(tail) or [""])[-1]}
-    ctx.extra["late_storage_check_counterexamples"] = found
+    """With the checks where the implementation has (had) them, TLC must exhibit the defects:
+      storage "late"  - impure rejection after DumpRunInfo (F11); a name that is never looked at (F62)   [pinned commit]
+      storage "any"   - the same two for a per-output storage dictionary whose unknown name any(...) does not reach (F66)
+      keywords "late" - a call rejected for a missing / surplus keyword after user functions ran (F68)."""
+    runs = [("storage_late", "InvRejectIsPure", {"storage_check": "late"}, "StorageMutantsOnly"),
+            ("storage_late", "InvOnlyReject", {"storage_check": "late"}, "StorageMutantsOnly"),
+            ("storage_any", "InvRejectIsPure", {"storage_check": "any"}, "StorageMutantsOnly"),
+            ("storage_any", "InvOnlyReject", {"storage_check": "any"}, "StorageMutantsOnly"),
+            ("kwargs_late", "InvRejectIsPure", {"kwarg_check": "late"}, "CallMutantsOnly")]
+
+    def one(k: int):
+        name, inv, kw, constraint = runs[k]
+        return run_tlc("MC_Validity", mcfg(*shard, invs=inv, **kw) + f"CONSTRAINT {constraint}\n",
+                       ctx.workdir(f"order_{name}_{inv}"), workers=1, timeout=1800)
+    found: dict[str, dict] = {}
+    with ThreadPoolExecutor(max_workers=5) as ex:
+        for (name, inv, _, _), r in zip(runs, ex.map(one, range(len(runs)))):
+            ctx.add_tlc(r, f"MC_Validity MSpec, implementation-shaped ordering {name}: {inv} (violation expected)")
+            if inv not in r.violated:
+                raise MachineryError(f"the implementation-shaped ordering {name} does not violate {inv}: the Prepare model "
+                                     "does not exhibit the known ordering defect")
+            tail = r.stdout[r.stdout.find("Error: Invariant"):]
+            calls = re.findall(r"^/\\ calls = (\d+)", tail, re.M)
+            found[f"{name}:{inv}"] = {"steps": _RE_PC.findall(tail), "final_disk": (_RE_DISK.findall(tail) or [""])[-1],
+                                      "final_calls": int(calls[-1]) if calls else 0}
+    ctx.extra["implementation_ordering_counterexamples"] = found
 
 
 # ---- traces judged by TLC (fixed examples, random larger mutants) ----------------------------------------------------
-def outcome_trace(tdesc: dict, inputs: list, cfg: dict, prev: dict, obs: dict, **meta) -> dict:
-    return {"desc": tdesc, "inputs": inputs, "cfg": cfg, "prev": {"desc": prev["desc"], "inputs": prev["inputs"]},
+def outcome_trace(req: dict, obs: dict, **meta) -> dict:
+    return {"desc": req["desc"], "inputs": req["inputs"], "cfg": req["cfg"],
+            "prev": {"desc": req["prev"]["desc"], "inputs": req["prev"]["inputs"]}, "entry": req["entry"], "out": req["out"],
             "ev": [{"e": "outcome", "outcome": obs["outcome"], "calls": obs["calls"], "folder_changed": obs["folder_changed"]}],
             "obs": obs, **meta}
+
+
+def job_request(job: dict) -> dict:
+    prev = job.get("base") or {"desc": job["desc"], "inputs": job["inputs"]}
+    return {"desc": job["desc"], "inputs": job["inputs"], "cfg": job["cfg"], "prev": prev, "entry": job.get("entry", "map"),
+            "out": job.get("out", "")}
 
 
 def run_traced(job: dict) -> dict:
@@ -232,18 +328,16 @@ def run_traced(job: dict) -> dict:
     tmp = tempfile.mkdtemp(prefix="pfverif_c12t_")
     try:
         build.LOG.clear()
-        cfg = job["cfg"]
+        req = job_request(job)
         folder = None
-        if cfg["folder"]:
+        if req["entry"] == "map" and req["cfg"]["folder"]:
             folder = os.path.join(tmp, "run")
             if job.get("base") is not None:
-                cfg0 = {"storage": "file_array", "parallel": False, "executor": False, "cleanup": True, "folder": True}
-                run_request(job["base"]["desc"], job["base"]["inputs"], cfg0, folder, job.get("base_kinds"))
+                run_request(base_request(job["base"]), folder, job.get("base_kinds"))
         build.LOG.clear()
-        obs = run_request(job["desc"], job["inputs"], cfg, folder, job.get("kinds"))
-        prev = job.get("base") or {"desc": job["desc"], "inputs": job["inputs"]}
-        return outcome_trace(job["desc"], job["inputs"], cfg, prev, obs, op=job.get("op", "?"), label=job.get("label", ""),
-                             kinds=job.get("kinds"))
+        obs = run_request(req, folder, job.get("kinds"), job.get("how"))
+        return outcome_trace(req, obs, op=job.get("op", "?"), label=job.get("label", ""), kinds=job.get("kinds"),
+                             how=job.get("how") or NOHOW)
     finally:
         shutil.rmtree(tmp, ignore_errors=True)
 
@@ -255,7 +349,7 @@ def run_traced_jobs(jobs: list[dict]) -> list[dict]:
         return list(pool.map(run_traced, jobs, chunksize=max(1, len(jobs) // (NPROC * 8))))
 
 
-STRIP = ("obs", "op", "label", "kinds")
+STRIP = ("obs", "op", "label", "kinds", "how")
 
 
 def validate(ctx: Ctx, traces: list[dict], name: str) -> dict[int, int]:
@@ -265,8 +359,9 @@ def validate(ctx: Ctx, traces: list[dict], name: str) -> dict[int, int]:
         verdicts = spec_verdicts(ctx, [traces[i] for i in sorted(rej)], name)
         for k, i in enumerate(sorted(rej)):
             tr = traces[i]
-            exp = {"op": tr["op"], "violated": verdicts.get(k, "?"), "req": {"desc": tr["desc"], "inputs": tr["inputs"],
-                                                                             "cfg": tr["cfg"], "prev": tr["prev"]}}
+            exp = {"op": tr["op"], "violated": verdicts.get(k, "?"), "how": tr.get("how") or NOHOW,
+                   "req": {"desc": tr["desc"], "inputs": tr["inputs"], "cfg": tr["cfg"], "prev": tr["prev"],
+                           "entry": tr["entry"], "out": tr["out"]}}
             obs = tr["obs"]
             bad = (["accepted"] if obs["outcome"] == "returned" and exp["violated"] not in ("none", "?") else []) + \
                   (["valid-request-rejected"] if obs["outcome"] == "rejected" and exp["violated"] == "none" else []) + \
@@ -313,12 +408,12 @@ def _arr(name, n):
 
 
 def fixed_jobs() -> list[dict]:
-    C = lambda **kw: {"storage": "file_array", "parallel": False, "executor": False, "cleanup": True, "folder": True, **kw}  # noqa: E731
+    C = lambda **kw: {**CFG0, **kw}  # noqa: E731
     ex = []
 
-    def add(label, funcs, inputs, cfg=None, base=None):
-        ex.append({"label": label, "desc": desc_to_tla({"funcs": funcs}), "inputs": inputs, "cfg": cfg or C(), "op": "fixed",
-                   "base": base})
+    def add(label, funcs, inputs, cfg=None, base=None, entry="map", out=""):
+        ex.append({"label": label, "desc": desc_to_tla({"funcs": funcs}), "inputs": inputs,
+                   "cfg": cfg or C(folder=entry == "map"), "op": "fixed", "base": base, "entry": entry, "out": out})
     add("tests/test_pipeline.py:162 inconsistent defaults",
         [_f("f", ["a", "b"], ["c"], defaults={"b": _atom("1")}), _f("g", ["a", "b"], ["d"], defaults={"b": _atom("2")})],
         [["a", _atom("1")]])
@@ -343,7 +438,40 @@ def fixed_jobs() -> list[dict]:
         [_f("ff", ["a", "b"], ["f"], "a[i], b[j] -> f[i, j]"), _f("gg", ["f", "c"], ["g"], "f[i, j], c[k] -> g[i, j, k]")],
         [["a", _arr("a", 2)], ["b", _arr("b", 1)], ["c", _arr("c", 2)]])
     add("tests/map/test_map.py:1243 map without MapSpec (accepted)", [_f("f", ["x"], ["y"])], [["x", _atom("1")]])
+    two = [_f("f1", ["a", "b"], ["c"]), _f("f2", ["c"], ["d"])]
+    add("tests/test_pipeline.py:421 unused keyword argument", two, [["a", _atom("1")], ["b", _atom("2")], ["doesnotexist", _atom("3")]],
+        entry="call", out="d")
+    add("tests/test_pipeline.py:581 missing value for an argument", two, [["a", _atom("1")]], entry="call", out="d")
+    add("tests/test_pipeline.py:424 call with exactly the needed keywords (accepted)", two, [["a", _atom("1")], ["b", _atom("2")]],
+        entry="call", out="d")
+    add("tests/map/test_map.py:1576-style storage dictionary with an unknown name after the default",
+        [_f("f", ["x"], ["y"], "x[i] -> y[i]"), _f("g", ["y"], ["z"])], [["x", _arr("x", 2)]],
+        C(sdict=[{"key": [], "name": "file_array"}, {"key": ["y"], "name": "bogus"}], cleanup=False),
+        base={"desc": desc_to_tla({"funcs": [_f("f", ["x"], ["y"], "x[i] -> y[i]"), _f("g", ["y"], ["z"])]}),
+              "inputs": [["x", _arr("x", 2)]]})
     return ex
+
+
+def _read_roots(tdesc: dict, out: str) -> list[str]:
+    """GENERATOR helper (not an oracle): root names read by the functions a backward walk from `out` reaches."""
+    prod = {o: f for f in tdesc["funcs"] for o in f["outputs"]}
+    seen: set[str] = set()
+    roots: list[str] = []
+    todo = [prod[out]]
+    while todo:
+        f = todo.pop()
+        if f["name"] in seen:
+            continue
+        seen.add(f["name"])
+        bound = {b for b, _ in f["bound"]}
+        for q in f["params"]:
+            if q in bound:
+                continue
+            if q in prod:
+                todo.append(prod[q])
+            elif q not in roots:
+                roots.append(q)
+    return roots
 
 
 # ---- random larger mutants (python-side single faults; TLC judges each request) ----------------------------------------
@@ -358,9 +486,29 @@ def mutate_random(rng: random.Random, tdesc: dict, inputs: list) -> tuple[str, d
     fs = d["funcs"]
     outs = [o for f in fs for o in f["outputs"]]
     op = rng.choice(["dropped_input", "added_input", "unknown_storage", "executor_without_parallel", "resized_axis",
-                     "changed_rank", "rename_collision", "added_edge", "axis_names", "mapspec_signature", "none"])
+                     "changed_rank", "rename_collision", "added_edge", "axis_names", "mapspec_signature", "none",
+                     "unknown_storage_in_dict", "call_dropped_kw", "call_added_kw"])
     cfg: dict = {}
-    if op == "dropped_input" and inp:
+    if op in ("call_dropped_kw", "call_added_kw"):
+        if any(f["has_ms"] for f in fs):
+            return None
+        out = rng.choice(outs)
+        kw = [[r, _atom("k_" + r)] for r in _read_roots(d, out)]
+        if op == "call_dropped_kw":
+            if not kw:
+                return None
+            kw.pop(rng.randrange(len(kw)))
+        else:
+            names = sorted({q for f in fs for q in f["params"]} | set(outs) | {"q_extra"})
+            cand = [n for n in names if n != out and n not in {k for k, _ in kw}]
+            kw.append([rng.choice(cand), _atom("extra")])
+        return op, d, kw, {"entry": "call", "out": out, "folder": False, "cleanup": True}
+    if op == "unknown_storage_in_dict":
+        key = rng.choice([f["outputs"] for f in fs] + [["zzz"]])
+        dflt = {"key": [], "name": rng.choice(["file_array", "dict"])}
+        unk = {"key": key, "name": "nonsense"}
+        cfg = {"sdict": [dflt, unk] if rng.random() < 0.7 else [unk, dflt]}
+    elif op == "dropped_input" and inp:
         inp.pop(rng.randrange(len(inp)))
     elif op == "added_input":
         inp.append([rng.choice(outs + ["q_extra"]), _atom("extra")])
@@ -422,12 +570,12 @@ def random_jobs(rng: random.Random, count: int) -> list[dict]:
         if m is None:
             continue
         op, d2, inp2, over = m
-        cfg = {"storage": "file_array", "parallel": False, "executor": False, "cleanup": rng.random() < 0.5, "folder": True,
-               **over}
+        entry, out = over.pop("entry", "map"), over.pop("out", "")
+        cfg = {**CFG0, "cleanup": rng.random() < 0.5, **over}
         if op == "unknown_storage" and rng.random() < 0.25:
             cfg["folder"] = False
             cfg["cleanup"] = True
-        jobs.append({"label": "random", "op": op, "desc": d2, "inputs": inp2, "cfg": cfg,
+        jobs.append({"label": "random", "op": op, "desc": d2, "inputs": inp2, "cfg": cfg, "entry": entry, "out": out,
                      "base": {"desc": tdesc, "inputs": inputs}})
     return jobs
 
@@ -449,7 +597,10 @@ def run(ctx: Ctx) -> None:
                 "from a VALID case of the C01 universe (MC_MapDenote) or the C02 universe (MC_PipelineCall, all root arguments "
                 "given) by one mutation operator of MC_Validity (rename collision, added edge, changed default, dropped / "
                 "added input, resized axis, changed rank, axis names in one consumer, MapSpec vs signature, unknown storage, "
-                "executor without parallel) x cleanup in {True, False}; mutants that stay valid are counted and discarded; "
+                "executor without parallel, unknown name in a storage dictionary at every position; after construction: "
+                "update_renames of an output onto another output / an own parameter, of a parameter onto an own output / into "
+                "a cycle, update_defaults against another function's default) x cleanup in {True, False}, entry map or call; "
+                "on the call side a dropped or an added keyword; mutants that stay valid are counted and discarded; "
                 "plus the repository's pytest.raises examples and seeded random larger mutants judged by TLC; non-trivial = "
                 "the specification calls the request invalid")
     ctx.assumptions = ["TLC and the JSON/term encoding are trusted", "the run folder is compared by content (sha1 per file), "
@@ -461,7 +612,7 @@ def run(ctx: Ctx) -> None:
         # two TLC processes: one C01 shard, one C02 shard (Shard = NShards switches the other universe off)
         shards = [(s % 48, 48, 16, 16), (48, 48, s % 16, 16)]
     else:
-        shards = [((s + 5 * k) % 16, 16, 4, 4) for k in range(2)] + [(16, 16, k, 4) for k in range(4)]   # all of C02's N=2
+        shards = [(s % 16, 16, 4, 4)] + [(16, 16, k, 4) for k in range(4)]   # one C01 shard; all of C02's N=2
     cases, stayed = export_mutants(ctx, shards, workers=2)
     ordering_counterexamples(ctx, (s % 48, 48, s % 16, 16))
     ctx.exhaustive = False
@@ -475,20 +626,22 @@ def run(ctx: Ctx) -> None:
 
     groups: dict[str, dict] = {}
     for c in cases:
-        k = json.dumps(c["req"]["prev"], sort_keys=True)
+        k = json.dumps([c["req"]["prev"], c["req"]["out"] if c["op"].startswith("call_") else ""], sort_keys=True)
         groups.setdefault(k, {"base": c["req"]["prev"], "mutants": []})["mutants"].append(c)
     jobs = list(groups.values())
     results = run_groups(jobs)
     stage("mutant runs")
     pairs: list[tuple[dict, dict]] = []
-    cfg0 = {"storage": "file_array", "parallel": False, "executor": False, "cleanup": True, "folder": True}
     for job, res in zip(jobs, results):
         b = res["base"]
         ctx.case({"base": job["base"]}, nontrivial=False)
         if b["outcome"] != "returned":
-            report(ctx, "base", {"op": "none", "violated": "none", "req": {**job["base"], "cfg": cfg0, "prev": job["base"]}}, b,
-                   ["valid-request-rejected"])
+            first = job["mutants"][0]
+            breq = base_request(job["base"], "call", first["req"]["out"]) if first["op"].startswith("call_") else base_request(job["base"])
+            report(ctx, "base", {"op": "none", "violated": "none", "req": breq}, b, ["valid-request-rejected"])
         for m, obs in zip(job["mutants"], res["obs"]):
+            if obs["model_mismatch"]:
+                raise MachineryError(f"the pipeline after {m['how']} is not the one the specification judged: {m['req']['desc']}")
             ctx.case({"req": m["req"], "op": m["op"]}, nontrivial=True)
             pairs.append((m, obs))
             bad = discrepancies(m, obs)
@@ -566,8 +719,9 @@ def replay(rep: dict) -> int:
     exp, kind = w["exp"], w["kind"]
     req = exp["req"]
     base = req.get("prev")
+    req["cfg"].setdefault("sdict", [])
     job = {"desc": req["desc"], "inputs": req["inputs"], "cfg": req["cfg"], "base": base, "op": exp.get("op", "?"),
-           "label": "replay"}
+           "label": "replay", "entry": req.get("entry", "map"), "out": req.get("out", ""), "how": exp.get("how")}
     tr = run_traced(job)
     print(json.dumps({"op": exp.get("op"), "violated": exp.get("violated"), "cfg": req["cfg"], "observed": tr["obs"]}, indent=1))
     ctx = Ctx(PROPERTY, "quick", 0)
